@@ -43,6 +43,9 @@ type Op struct {
 	Op   string `json:"op"`
 	M    string `json:"m"`
 	Flag bool   `json:"flag"`
+	// Old: SetUnread through the message object of the first listing in which the message was seen (an application that
+	// keeps its list while the mailbox changes underneath)
+	Old bool `json:"old,omitempty"`
 }
 
 type Scenario struct {
@@ -62,6 +65,11 @@ func BuildMsg(u *Universe, mid, role string) *fbb.Message {
 	m.AddTo(spec.To...)
 	m.AddCc(spec.Cc...)
 	m.SetSubject("subject of " + role + " " + mid)
+	if mid == "B" && role == "out" {
+		// a message a session would refuse to send (Validate: subject longer than 128 characters) is in the mailbox all the
+		// same: what is eligible is the mailbox's business, what is sendable the session's
+		m.SetSubject("subject of out B " + strings.Repeat("long ", 26))
+	}
 	m.SetBody("body of " + role + " message " + mid + "\r\nsecond line æøå\r\n")
 	if mid == "B" || mid == "C" {
 		// legal but unusual section layouts: an empty attachment in front of a non-empty one
@@ -105,6 +113,8 @@ type runner struct {
 	nInbound                           int
 	lastOp                             Op
 	lastHandle, nextHandle, prevHandle *fbb.Message
+	old                                map[string]*fbb.Message
+	dropHandles                        bool
 }
 
 func (r *runner) list(fn func() ([]*fbb.Message, error)) (map[string]*fbb.Message, bool) {
@@ -285,6 +295,13 @@ func (r *runner) apply(op Op) (err error) {
 		if op.Op == "SetUnreadOut" {
 			fn = r.h.Outbox
 		}
+		// an old message object, for the markings that do not depend on what the object believes about the file: marking
+		// unread always rewrites the file, marking read does when the object was loaded unread (marking read through an
+		// object that was loaded read is a documented no-op)
+		if o := r.old[op.Op+op.M]; op.Old && o != nil && (op.Flag || o.Header.Get("X-Unread") != "") {
+			r.dropHandles = true // the object of the previous marking no longer knows the state of the file
+			return mailbox.SetUnread(o, op.Flag)
+		}
 		// two markings in a row of the same message use the same loaded message object (no listing in between)
 		if r.lastOp.Op == op.Op && r.lastOp.M == op.M && r.lastHandle != nil {
 			return mailbox.SetUnread(r.lastHandle, op.Flag)
@@ -296,6 +313,18 @@ func (r *runner) apply(op Op) (err error) {
 		for _, m := range msgs {
 			if m.MID() == op.M {
 				r.nextHandle = m
+				if r.old == nil {
+					r.old = map[string]*fbb.Message{}
+				}
+				if r.old[op.Op+op.M] == nil {
+					if again, err := fn(); err == nil { // its own object, not the one that is used now
+						for _, a := range again {
+							if a.MID() == op.M {
+								r.old[op.Op+op.M] = a
+							}
+						}
+					}
+				}
 				return mailbox.SetUnread(m, op.Flag)
 			}
 		}
@@ -332,6 +361,9 @@ func safeApply(r *runner, op Op) (err error, panicked string) {
 		r.lastHandle = r.prevHandle // a reused handle stays usable for a third marking
 	}
 	r.prevHandle = r.lastHandle
+	if r.dropHandles {
+		r.lastHandle, r.prevHandle, r.dropHandles = nil, nil, false
+	}
 	return err, ""
 }
 
@@ -415,7 +447,7 @@ func randomScenario(u *Universe, rng *rand.Rand, n, length int) Scenario {
 			}
 		default:
 			if inb[m] {
-				sc.Ops = append(sc.Ops, Op{Op: "SetUnread", M: m, Flag: rng.Intn(2) == 0})
+				sc.Ops = append(sc.Ops, Op{Op: "SetUnread", M: m, Flag: rng.Intn(2) == 0, Old: rng.Intn(3) == 0})
 				for rng.Intn(3) == 0 { // marked again at once, through the same message object
 					sc.Ops = append(sc.Ops, Op{Op: "SetUnread", M: m, Flag: rng.Intn(2) == 0})
 				}
